@@ -178,6 +178,15 @@ def stepTokens (w : World) : List String → World × String
        | .corrupt => (w, "corrupt"))
     | _, _ => (w, "bad-op")
   | ["cfg", _] => (w, "ok")
+  | ["heapcheck"] => (w, "ok")
+  | ["refcheck"] => (w, "ok")
+  | ["refbalance"] => (w, "ok")
+  | ["churn", _] => (w, "ok")
+  | ["fault", _, _, _] => (w, "ok")
+  | ["unfault", _] => (w, "ok")
+  | ["opendump", f] => match f.toNat? with
+    | some f => (w, showOpen (openStore f (w.file f).bytes cmpOfName))
+    | none => (w, "bad-op")
   | ["close", s] => match s.toNat? with
     | some s => (match assocGet s w.stores with
       | some _ => ({ w with stores := assocDel s w.stores }, "ok")
@@ -347,7 +356,32 @@ def stepTokens (w : World) : List String → World × String
     | _, _, _ => (w, "bad-op")
   | _ => (w, "bad-op")
 
+/-- operations that wrap another operation -/
+def stepTokens2 (w : World) (ts : List String) : World × String :=
+  match ts with
+  | "nvisit" :: s :: n :: dir :: t :: wv :: pos :: "|" :: nested =>
+    -- a visit pins the version current at its start; the nested operation runs at item `pos`
+    let (_, vis) := stepTokens w ["visit", s, n, dir, t, wv, "-1"]
+    if vis == "nocoll" || vis == "nostore" || vis == "bad-op" then (w, vis) else
+    let cnt := if vis == "" then 0 else (vis.splitOn ",").length
+    (match pos.toNat? with
+     | some p =>
+       if p < cnt then
+         let (w', o) := stepTokens w nested
+         (w', vis ++ "|" ++ o)
+       else (w, vis ++ "|none")
+     | none => (w, "bad-op"))
+  | "failop" :: op :: rest =>
+    -- the file failed during this call: it reports an I/O error and changes nothing visible;
+    -- a failed open creates no store, a store whose FlushRevert failed must be re-opened
+    (match op, rest with
+     | "revert", [s] => (match s.toNat? with
+        | some s => ({ w with stores := assocDel s w.stores }, "err-io")
+        | none => (w, "bad-op"))
+     | _, _ => (w, "err-io"))
+  | _ => stepTokens w ts
+
 def step (w : World) (line : String) : World × String :=
-  stepTokens w ((line.splitOn " ").filter (· ≠ ""))
+  stepTokens2 w ((line.splitOn " ").filter (· ≠ ""))
 
 end Gkv
